@@ -1,6 +1,6 @@
 (* C05 - proofs about the models Robust/Chase.v, Robust/Alloc.v, Robust/Arith.v. *)
 From Coq Require Import ZifyBool ZifyNat ZifyN.
-From Cddl Require Import Base.Bytes Cbor.Wire Cbor.DecodeProofs Generated.RobustConsts Robust.Chase Robust.Alloc Robust.Arith.
+From Cddl Require Import Base.Bytes Cbor.Wire Cbor.DecodeProofs Generated.RobustConsts Robust.Chase Robust.Alloc Robust.Arith Robust.Occur.
 Ltac Zify.zify_post_hook ::= Z.div_mod_to_equations.
 Arguments N.add : simpl never.
 Arguments N.mul : simpl never.
@@ -271,4 +271,52 @@ Proof.
   intros a b Ha Hb. unfold plus_checked, in_u64.
   destruct ((0 <=? a) && (0 <=? b)) eqn:E; [|lia].
   destruct ((0 <=? a + b) && (a + b <? 2 ^ 64)) eqn:F; split; intros G; try discriminate; try reflexivity; lia.
+Qed.
+
+(* ====================================================================== *)
+(* occurrence loop of the sequence matchers                                *)
+(* ====================================================================== *)
+Open Scope N_scope.
+
+Lemma finish_no_fuel {A} min count (cur : list A) : finish min count cur <> OFuel.
+Proof. unfold finish. destruct (min <=? count); discriminate. Qed.
+
+(* with the zero-width stop the loop needs at most one step per remaining element plus one,
+   whatever the bounds written in the schema *)
+Theorem occ_loop_terminates {A} (once : list A -> option (list A)) : consumes once ->
+  forall f min max count cur, (length cur < f)%nat -> occ_loop true once f min max count cur <> OFuel.
+Proof.
+  intros C. induction f as [|f IH]; intros min max count cur Hf; [lia|]. cbn [occ_loop].
+  destruct (below max count); [|apply finish_no_fuel].
+  destruct (once cur) as [next|] eqn:E; [|apply finish_no_fuel].
+  destruct (C _ _ E) as (p & ->). rewrite app_length in Hf |- *.
+  destruct (length next =? length p + length next)%nat eqn:L; cbn [andb orb]; [apply finish_no_fuel|].
+  apply IH. apply Nat.eqb_neq in L. lia.
+Qed.
+
+Lemma zero_width_flags : json_zero_width_stop && cbor_zero_width_stop = true. Proof. reflexivity. Qed.
+
+Theorem occ_loop_code_terminates {A} (once : list A -> option (list A)) : consumes once ->
+  forall f min max count cur, (length cur < f)%nat ->
+  occ_loop (json_zero_width_stop && cbor_zero_width_stop) once f min max count cur <> OFuel.
+Proof. rewrite zero_width_flags. apply occ_loop_terminates. Qed.
+
+(* without the stop on bounded occurrences the number of steps follows the bound written in the schema:
+   an entry that matches without consuming anything, no element at all, and every fuel is exhausted by some bound *)
+Lemma occ_loop_unstopped : forall f count,
+  occ_loop false (fun l : list N => Some l) f 0 (Some (count + N.of_nat f)) count [] = OFuel.
+Proof.
+  induction f as [|f IH]; intros count; [reflexivity|]. cbn [occ_loop below].
+  assert (B : (count <? count + N.of_nat (S f)) = true) by lia. rewrite B.
+  cbn [length Nat.eqb andb orb unbounded].
+  replace (count + N.of_nat (S f)) with (count + 1 + N.of_nat f) by lia. apply IH.
+Qed.
+
+Theorem occ_loop_unstopped_refuted :
+  exists once : list N -> option (list N), consumes once /\
+    forall f, exists m, occ_loop false once f 0 (Some m) 0 [] = OFuel.
+Proof.
+  exists (fun l => Some l). split.
+  - intros l l' H. inversion H. subst. exists []. reflexivity.
+  - intros f. exists (N.of_nat f). exact (occ_loop_unstopped f 0).
 Qed.
